@@ -1130,12 +1130,17 @@ def migration34(tdset):
   sections = list(actions.transpose_bulk_action(tdset.all_tables['_grist_Views_section']))
   filters = list(actions.transpose_bulk_action(tdset.all_tables['_grist_Filters']))
   raw_section_ids = set(t.rawViewSectionRef for t in tables)
+
+  def has_filter_bar(section):
+    options = safe_parse(section.options)
+    return isinstance(options, dict) and bool(options.get('filterBar', False))
+
   filter_bar_by_section_id = {
     # Pre-migration, raw sections always showed the filter bar in the UI. Since we want
     # existing raw section filters to continue appearing in the filter bar, we'll pretend
     # here that raw sections have a filterBar value of True. Note that after this migration
     # it will be possible for raw sections to have unpinned filters.
-    s.id: bool(s.id in raw_section_ids or safe_parse(s.options).get('filterBar', False))
+    s.id: bool(s.id in raw_section_ids or has_filter_bar(s))
     for s in sections
   }
 
